@@ -428,6 +428,21 @@ func (lc *linCtx) of(v ssa.Value) linExpr {
 				return r
 			}
 		}
+		// slices.Index / IndexFunc / BinarySearch...: an index into the slice, or -1 (documented results)
+		if cn := P.calleeName(x.Common()); len(x.Call.Args) >= 2 && isIntType(x.Type()) {
+			base := cn
+			if i := strings.Index(base, "["); i >= 0 {
+				base = base[:i]
+			}
+			switch base {
+			case "slices.Index", "slices.IndexFunc":
+				r := linVar("v:" + lc.id(v))
+				lc.vars[v] = r
+				ls := lc.lenVar(x.Call.Args[0])
+				lc.def().facts = append(lc.def().facts, r.add(linConst(1), 1), geq(ls.add(linConst(1), -1), r)) // -1 <= r <= len-1
+				return r
+			}
+		}
 		if P.CallTo(x, "sort.Search") != nil && len(x.Call.Args) == 2 {
 			r := linVar("v:" + lc.id(v))
 			lc.vars[v] = r
@@ -561,6 +576,78 @@ func (lc *linCtx) of(v ssa.Value) linExpr {
 					lc.def().facts = append(lc.def().facts, alts[0]...)
 				} else if len(alts) > 1 {
 					lc.def().disj = append(lc.def().disj, alts)
+				}
+				// a rotated loop (`for i := range n`, `for ... { } ` with the test at the bottom): the value enters
+				// the body over edges that each tested it - `init < n` before the loop, `i+1 < n` at the end of
+				// the previous round - against a bound that does not change inside the loop. What the test says
+				// about the incoming value holds for the variable in this round.
+				body := loopOf(x.Block())
+				var ups []linAlt
+				okAll := body != nil
+				for i, e := range x.Edges {
+					if !okAll {
+						break
+					}
+					pred := x.Block().Preds[i]
+					ifi, isIf := lastInstr(pred).(*ssa.If)
+					bo, isB := (ssa.Value)(nil), false
+					var cmp *ssa.BinOp
+					if isIf && len(pred.Succs) == 2 && pred.Succs[0] != pred.Succs[1] {
+						cmp, isB = ifi.Cond.(*ssa.BinOp)
+					}
+					_ = bo
+					if !isB {
+						okAll = false
+						break
+					}
+					var other ssa.Value
+					switch {
+					case cmp.X == e:
+						other = cmp.Y
+					case cmp.Y == e:
+						other = cmp.X
+					default:
+						// the start value may be a constant that is tested as another constant object
+						ce, isCE := e.(*ssa.Const)
+						if cx, isCX := cmp.X.(*ssa.Const); isCE && isCX && ce.Value != nil && cx.Value != nil && ce.Value.ExactString() == cx.Value.ExactString() {
+							other = cmp.Y
+						} else if cy, isCY := cmp.Y.(*ssa.Const); isCE && isCY && ce.Value != nil && cy.Value != nil && ce.Value.ExactString() == cy.Value.ExactString() {
+							other = cmp.X
+						}
+					}
+					if other == nil {
+						okAll = false
+						break
+					}
+					if oi, isI := other.(ssa.Instruction); isI && body[oi.Block()] {
+						okAll = false // the bound is computed inside the loop
+						break
+					}
+					vars2 := map[ssa.Value]linExpr{}
+					for k, vv := range lc.vars {
+						vars2[k] = vv
+					}
+					if cmp.X == e || cmp.Y == e {
+						vars2[e] = z
+					} else if cmp.X != other {
+						vars2[cmp.X] = z
+					} else {
+						vars2[cmp.Y] = z
+					}
+					sub := &linCtx{c: lc.c, P: P, vars: vars2, ids: lc.ids, trust: lc.trust, depth: lc.depth, bound: lc.bound, nFresh: lc.nFresh + 7000*(i+1), defSink: lc.def()}
+					sub.condFacts(cmp, pred.Succs[0] == x.Block())
+					if len(sub.facts) == 0 {
+						okAll = false
+						break
+					}
+					ups = append(ups, linAlt(sub.facts))
+				}
+				if okAll && len(ups) > 0 {
+					if len(ups) == 1 {
+						lc.def().facts = append(lc.def().facts, ups[0]...)
+					} else {
+						lc.def().disj = append(lc.def().disj, ups)
+					}
 				}
 			}
 			return z
